@@ -223,7 +223,7 @@ def nonneg(ff, v, in_wcells, ss, outp, depth=0):
     return (False, "value is not non-negative by construction: %s" % ins.text[:70], None)
 
 
-def flipped_with(ff, v, cond, neg_when_true):
+def flipped_with(ff, v, cond, neg_when_true, _depth=0):
     """is v == select/phi(cond, -Y, Y) for some Y (same condition as the q_w flip), or a (signed) zero constant?"""
     c = ir.parse_const(v)
     if c is not None:
@@ -242,6 +242,12 @@ def flipped_with(ff, v, cond, neg_when_true):
                 if sf2 is not None and sf2[:3] == sf[:3]:
                     return True
         return False
+    if ins.op in ("fmul", "fdiv") and _depth < 6:
+        # (the flip folded into a factor) * x: negated under the condition exactly when one of the two factors is (an odd number of sign flips)
+        ops = _operands(ins)
+        fl = [a for a in ops if ir.parse_const(a) is None and flipped_with(ff, a, cond, neg_when_true, _depth + 1)]
+        if len(ops) == 2 and len(fl) == 1:
+            return True
     if ins.op == "select":
         parts = ir.split_top(ins.text[len("select"):])
         c = parts[0].split()[-1]
@@ -469,6 +475,8 @@ def check_r2(rep, idx):
                     st = A.to_expr(A.kids(x)[1]) if len(A.kids(x)) > 1 else None
                     if st is not None and st[0] == "op" and st[1] == "*" and ("num", 3) in (st[2], st[3]):
                         continue      # translation block p_k at 3*k, k < K: before the rotation part [3K, 3K+4) by the documented layout
+                if cls == "SE_K_3Impl" and cal.get("member") == "head" and (A.targs_text(cal) or "").replace(" ", "") in ("3*K", "K*3"):
+                    continue          # all K translation blocks [0, 3K): before the rotation part [3K, 3K+4) by the documented layout
                 if rng is None:
                     rep.broke("R2: cannot resolve sub-block %s in %s (%s:%s)" % (A.text(x)[:50], d.qname, fe.rel(f), l))
                     continue
